@@ -63,6 +63,7 @@ type End struct {
 	WriteGate func(op Op, data []byte) // called after the bytes reached the peer, before Write returns
 	Yield     int                      // number of Gosched calls at Write entry (interleaving pressure)
 	MaxBuffer int                      // >0: a Write blocks while the peer holds this many unread bytes (like a full socket buffer)
+	CloseErr  error                    // returned by every Close (the stream is closed all the same), like a TLS connection that cannot send its close_notify
 
 	ops           int64
 	Reads         int64
@@ -266,10 +267,11 @@ func (e *End) Close() error {
 	e.mu.Lock()
 	if e.closed {
 		e.mu.Unlock()
-		return nil
+		return e.CloseErr
 	}
 	e.closed = true
 	e.mu.Unlock()
+	defer e.bump()
 	e.in.mu.Lock()
 	e.in.rclosed = true
 	e.in.cond.Broadcast()
@@ -278,8 +280,7 @@ func (e *End) Close() error {
 	e.out.wclosed = true
 	e.out.cond.Broadcast()
 	e.out.mu.Unlock()
-	e.bump()
-	return nil
+	return e.CloseErr
 }
 
 // Closed reports whether Close was called on this end.
